@@ -253,9 +253,32 @@ nodes.reduplicate = reduplicate
 _OrigTaskGen = sd.TaskGenerator
 
 
+def stale_tables(exprs):
+    """nodes of the given input that the id-based tables of smtlib do not know although they should: index numerals of
+    indexed identifiers that are not marked as indices, and declared names that are not marked as definition nodes
+    (the tables are filled by collect_information for the ids of ITS input)"""
+    n = 0
+    try:
+        indices = getattr(smtlib, '__indices')
+        defs = getattr(smtlib, '__definition_node_ids')
+    except AttributeError:
+        return None
+    for x in nodes.dfs(exprs):
+        if x.is_leaf():
+            continue
+        if len(x) > 2 and x[0].is_leaf() and x[0].data == '_':
+            n += sum(1 for c in x[2:] if c.is_leaf() and c.data.isdigit() and c.id not in indices)
+        if len(x) == 3 and x[0].is_leaf() and x[0].data == 'declare-const' and x[1].is_leaf() and x[1].id not in defs:
+            n += 1
+    return n
+
+
 class TaskGenerator(_OrigTaskGen):
     def __init__(self, exprs, gran, mutator, max_depth=None):
+        stale = stale_tables(exprs)         # before the filters of the mutator consult the tables
         super().__init__(exprs, gran, mutator, max_depth)
+        if stale:
+            log('stale_tables', digest=dig(exprs), count=stale, mutator=type(mutator).__name__, gran=gran)
         log('taskgen', digest=dig(exprs), dup_ids=dup_ids(exprs), mutator=type(mutator).__name__, gran=self.gran,
             nsubsets=len(self.subsets), parallel=self.pickled_exprs is not None, mid=getattr(mutator, '_verif_id', None),
             num_filtered=self.num_filtered, nexprs=nodes.count_exprs(exprs), first=gran is None)
